@@ -37,7 +37,8 @@ META = {
     "design_ref": "DESIGN.md §5 C05",
     "text": "The theorems are unbounded and semiring-generic; the tie is sampled. SDD/SDDX/FSDD/BDD/FBDD need PySDD/dd, "
             "which are not installed: they raise InstallError and are recorded as unavailable, nothing is claimed about them "
-            "beyond the backend-independent theorems.",
+            "beyond the backend-independent theorems."
+            " Further theorems: NSP evaluation of any decomposable+deterministic circuit equals the WMC over all weighted variables (C05_nsp_general); the symbolic semiring's result string denotes the probability-semiring value (AST/token model, total reader, unambiguous token grammar, sym_* translated from the source compute the printed strings).",
     "note": "Trusted: Coq kernel + stdlib real-number axioms (log-probability theorem only), extraction + driver shared with C10, "
             "Python brute-force judge in this file.",
 }
